@@ -33,6 +33,7 @@ class LockWorld:
     def __init__(self, nclients, max_conn=2, names='distinct'):
         import dawgie.context
         self.names = names
+        self.max_reopen = 0
         self.max_conn = max_conn
         import dawgie.db.shelve.comms as comms
         from . import world
@@ -72,6 +73,7 @@ class LockWorld:
         self.conns = [None] * self.n       # current connection per client slot
         self.all = []                      # every connection ever made
         self.polls = []
+        self.nreopen = 0
 
     def close(self):
         self.store.close()
@@ -123,6 +125,10 @@ class LockWorld:
             if c['told'] and not c['released']:
                 evs.append(('rel', i))
             evs.append(('drop', i))
+        if self.nreopen < self.max_reopen:
+            # the pipeline closes and opens its data base again (archive done,
+            # reload) while clients hold or wait for the lock
+            evs.append(('reopen',))
         if reactor.getDelayedCalls():
             evs.append(('adv',))
         evs.append(('sec',))
@@ -149,6 +155,23 @@ class LockWorld:
                 c = self.conns[ev[1]]
                 c['lost'] = True
                 c['p'].connectionLost(Failure(ConnectionDone()))
+            elif ev[0] == 'reopen':
+                import contextlib
+                import io
+                import dawgie.db
+                import dawgie.security as sec
+                self.nreopen += 1
+                saved_me = dict(sec._myself)
+                saved_open = self.comms.DBSerializer.open
+                sec._myself.clear()        # plain TCP listener on the virtual reactor
+                self.comms.DBSerializer.open = self.world._patched['dbs_open']
+                try:
+                    with contextlib.redirect_stdout(io.StringIO()):
+                        dawgie.db.close()
+                        dawgie.db.open()
+                finally:
+                    self.comms.DBSerializer.open = saved_open
+                    sec._myself.update(saved_me)
             elif ev[0] == 'adv':
                 self.world.advance_to_next_timer()
             elif ev[0] == 'sec':
@@ -175,7 +198,7 @@ class LockWorld:
                           p._Worker__looping_call_stopped, p._Worker__connection_lost, lc.running,
                           c['t'].disconnecting, tuple(timers), self.conns[c['slot']] is c))
         used = tuple(sum(1 for x in self.all if x['slot'] == i) for i in range(self.n))
-        return (bool(dawgie.context.db_lock), used, tuple(sorted(conns)))
+        return (bool(dawgie.context.db_lock), used, tuple(sorted(conns)), self.nreopen)
 
 
 def check(w, ev, before, news, report):
@@ -249,6 +272,7 @@ def job(args):
     tier, seed, nclients, cap, max_conn = args[:5]
     names = args[5] if len(args) > 5 else 'distinct'
     w = LockWorld(nclients, max_conn, names)
+    w.max_reopen = args[6] if len(args) > 6 else 0
     try:
         def build(hist, report=None, upto=None):
             w.reset()
@@ -314,6 +338,7 @@ def run(ctx):
         jobs.append((ctx.tier, ctx.seed, 2, None, 3))
         jobs.append((ctx.tier, ctx.seed, 3, 400000, 2))
     # the same spaces with all clients under one label and with empty labels
+    jobs.append((ctx.tier, ctx.seed, 2, None, 2, 'distinct', 1))     # with one re-open of the data base
     for names in ('same', 'falsy'):
         jobs.append((ctx.tier, ctx.seed, 2, None, 2, names))
         jobs.append((ctx.tier, ctx.seed, 3, None, 1, names))
